@@ -243,6 +243,9 @@ var c06Methods = []string{"GET", "POST", "PUT", "PATCH", "DELETE", "COPY", "HEAD
 type c06Gen struct {
 	r     *VRand
 	stats *VStats
+	// when set, quicCase / quicCaseManyDatagrams use these connection ids instead of drawing them
+	forceDcid []byte
+	forceScid []byte
 }
 
 func (g *c06Gen) bytes(n int) []byte {
@@ -767,6 +770,12 @@ func (g *c06Gen) quicCase(hs []byte, version uint32) *c06QuicCase {
 	per := (len(frames) + nPk - 1) / nPk
 	dcid := g.bytes([]int{8, 8, 8, 0, 1, 20, 16}[r.Intn(7)])
 	scid := g.bytes([]int{0, 0, 8, 20, 5}[r.Intn(5)])
+	if g.forceDcid != nil {
+		dcid = g.forceDcid
+	}
+	if g.forceScid != nil {
+		scid = g.forceScid
+	}
 	typeBits := byte(0)
 	if version == c06QuicV2 {
 		typeBits = 1
@@ -865,6 +874,12 @@ func (g *c06Gen) quicCaseManyDatagrams(hs []byte, version uint32) *c06QuicCase {
 	qc := &c06QuicCase{}
 	dcid := g.bytes([]int{8, 8, 16, 20}[r.Intn(4)])
 	scid := g.bytes([]int{0, 8}[r.Intn(2)])
+	if g.forceDcid != nil {
+		dcid = g.forceDcid
+	}
+	if g.forceScid != nil {
+		scid = g.forceScid
+	}
 	typeBits := byte(0)
 	if version == c06QuicV2 {
 		typeBits = 1
